@@ -203,13 +203,58 @@ NOT_DECIDED = {
         'a table with several output clauses and default output entries answers null on no match (only a single default is returned)',
         'FEEL sum/min/max over the collected outputs (uninterpreted aggregates)',
     ],
-    'C12': ['the hit-policy functions never index out of bounds given every rule has at least one output value; that parse_decision_table establishes this (arity check) is not yet under contract'],
+    'C12': ['the hit-policy functions never index out of bounds given every rule has at least one output value; parse_decision_table rejects a table without outputs or with a rule of the wrong arity and yields one evaluator per entry (its parsing callees are opaque)'],
 }
 ASSUMPTIONS = [
     'A-std (R13): iter().filter(f).collect() keeps exactly the elements satisfying f, in order (stub iter_filter_collect; closure kept and verified against its own ensures)',
     'A-derive: Value == Value is an equivalence-like relation value_same (reflexive); Clone returns an equal value; FeelContext default is empty',
     'get_matching_rules_prioritized returns a permutation of the matching rules (assumed contract)',
     'R1, R3, R4 (dispatch closure lifted: hit_policy and the evaluated table become parameters), R7, R10, R11, R14',
+]
+
+
+PDT_INV = 'input_expressions_and_values@.len() == decision_table.input_clauses@.len() && output_values_nodes@.len() == decision_table.output_clauses@.len() && default_output_values_nodes@.len() == decision_table.output_clauses@.len() && output_values_nodes@.len() >= 1'
+UNIT['parts'] += [
+    {'kind': 'vrs', 'file': 'hitpolicy/parse.vrs'},
+    {'kind': 'fn', 'src': T, 'path': 'fn parse_decision_table', 'key': 'hitpolicy::parse_decision_table', 'props': ['C12'], 'auto_props': ['C12', 'C05'], 'loops': 8, 'ret': 'r',
+     'sig_rewrite': [(r'^(\s*)fn ', r'\1pub fn ')],
+     'rewrites': [('RX', 'R11', r'dmntk_feel_parser::', '', None), ('RX', 'R11', r'dmntk_feel_evaluator::prepare', 'prepare', None), ('RX', 'R11', r'crate::errors::', '', None),
+                  ('RX', 'R14', r'let mut input_expressions_and_values = vec!\[\];', 'let mut input_expressions_and_values: Vec<(AstNode, Option<AstNode>)> = vec![];', 1),
+                  ('RX', 'R14', r'let mut component_names = vec!\[\];', 'let mut component_names: Vec<Name> = vec![];', 1),
+                  ('RX', 'R14', r'let mut output_values_nodes = vec!\[\];', 'let mut output_values_nodes: Vec<Option<AstNode>> = vec![];', 1),
+                  ('RX', 'R14', r'let mut default_output_values_nodes = vec!\[\];', 'let mut default_output_values_nodes: Vec<Option<AstNode>> = vec![];', 1),
+                  ('RX', 'R14', r'let mut parsed_rules = vec!\[\];', 'let mut parsed_rules: Vec<ParsedRule> = vec![];', 1),
+                  ('RX', 'R14', r'let mut input_entries_evaluators = vec!\[\];', 'let mut input_entries_evaluators: Vec<Evaluator> = vec![];', 1),
+                  ('RX', 'R14', r'let mut output_entries_evaluators = vec!\[\];', 'let mut output_entries_evaluators: Vec<Evaluator> = vec![];', 1),
+                  ('RX', 'R14', r'let mut output_values_evaluators = vec!\[\];', 'let mut output_values_evaluators: Vec<Option<Evaluator>> = vec![];', 1),
+                  ('RX', 'R14', r'let mut default_output_values_evaluators = vec!\[\];', 'let mut default_output_values_evaluators: Vec<Option<Evaluator>> = vec![];', 1),
+                  ('RX', 'R11', r'AstNode::In\(Box::new\(([^()]*(?:\([^()]*\))?[^()]*)\), Box::new\(([^()]*(?:\([^()]*\))?[^()]*)\)\)', r'ast_in(\1, \2)', None),
+                  ('RX', 'R11', r'AstNode::And\(Box::new\(left\), Box::new\(right\)\)', 'ast_and(left, right)', 1),
+                  ('RX', 'R11', r'AstNode::Out\(Box::new\(output_entry_node\), Box::new\(output_value_node\.clone\(\)\)\)', 'ast_out(output_entry_node, output_value_node.clone())', 1),
+                  ('RX', 'R2v', r'for input_clause in &decision_table\.input_clauses \{', 'for input_clause in decision_table.input_clauses.iter() {', 1),
+                  ('RX', 'R2v', r'for output_clause in &decision_table\.output_clauses \{', 'for output_clause in decision_table.output_clauses.iter() {', 1),
+                  ('RX', 'R2v', r'for rule in &decision_table\.rules \{', 'for rule in decision_table.rules.iter() {', 1),
+                  ('RX', 'R2v', r'for opt_node in (output_values_nodes|default_output_values_nodes) \{', r'for opt_node in \1.iter() {', 2),
+                  ('R1', 5), ('R1', 4), ('R1', 2)],
+     'ensures': [('ill_fitting_rules_are_an_error', '!rules_fit(*decision_table) ==> r is Err'),
+                 ('one_evaluator_per_entry', 'r is Ok ==> parsed_fits(*decision_table, r->Ok_0)')],
+     'loop_specs': {
+         0: {'iter_name': 'it0', 'invariant': [('collected', 'it0.seq().len() == decision_table.input_clauses@.len() && input_expressions_and_values@.len() == it0.index@')]},
+         1: {'iter_name': 'it1', 'invariant': [('inputs', 'input_expressions_and_values@.len() == decision_table.input_clauses@.len()'),
+                                               ('collected', 'it1.seq().len() == decision_table.output_clauses@.len() && output_values_nodes@.len() == it1.index@ && default_output_values_nodes@.len() == it1.index@')]},
+         2: {'invariant': [('lens', PDT_INV), ('checked_so_far', 'forall |i: int| 0 <= i < rule_index ==> (#[trigger] decision_table.rules@[i]).input_entries@.len() == decision_table.input_clauses@.len() '
+                                                                  '&& decision_table.rules@[i].output_entries@.len() == decision_table.output_clauses@.len()')]},
+         3: {'iter_name': 'it3', 'invariant': [('lens', PDT_INV), ('fits', 'rules_fit(*decision_table)'),
+                                               ('seq', 'it3.seq().len() == decision_table.rules@.len() && forall |j: int| 0 <= j < it3.seq().len() ==> *(#[trigger] it3.seq()[j]) == decision_table.rules@[j]'),
+                                               ('parsed_so_far', 'parsed_rules@.len() == it3.index@ && forall |i: int| 0 <= i < parsed_rules@.len() ==> (#[trigger] parsed_rules@[i]).input_entries_evaluators@.len() == decision_table.input_clauses@.len() '
+                                                                 '&& parsed_rules@[i].output_entries_evaluators@.len() == decision_table.output_clauses@.len()')],
+             'body_prefix': 'proof { assert(*rule == decision_table.rules@[it3.index@ as int]); }'},
+         4: {'invariant': [('lens', PDT_INV), ('rule', 'rule.input_entries@.len() == decision_table.input_clauses@.len()'), ('so_far', 'input_entries_evaluators@.len() == i')]},
+         5: {'invariant': [('lens', PDT_INV), ('rule', 'rule.output_entries@.len() == decision_table.output_clauses@.len()'), ('so_far', 'output_entries_evaluators@.len() == i')]},
+         6: {'iter_name': 'it6', 'invariant': [('so_far', 'it6.seq().len() == output_values_nodes@.len() && output_values_evaluators@.len() == it6.index@')]},
+         7: {'iter_name': 'it7', 'invariant': [('so_far', 'it7.seq().len() == default_output_values_nodes@.len() && default_output_values_evaluators@.len() == it7.index@')]},
+     },
+     },
 ]
 
 BOUNDED = {'C12': [{'name': 'single-structural-faults-never-crash', 'script': 'modelfaults.py', 'args': ['--cover'], 'thorough_args': ['--models', '1000'],
